@@ -415,7 +415,7 @@ def s2(rep, F):
                         re.search(r"(::iter|::into_iter|::drain|::keys|::values|::iter_mut|IntoIterator::into_iter|"
                                   r"::into_keys|::into_values)$", f):
                     recv = (bb.get("ga") or [""])[0]
-                    if "Hash" in recv or "hash" in f:
+                    if ("Hash" in recv or "hash" in f) and not _collected_then_sorted(b, bb.get("ln")):
                         rep.add(Finding("S2", p, "hash-iteration",
                                         "%s iterates a hash container (%s): the order of what it produces is "
                                         "not stable between calls" % (p, f), b["file"], bb.get("ln")))
@@ -431,6 +431,27 @@ def s2(rep, F):
                                 "%s contains interior mutability: validating may change the message"
                                 % a["path"], a["file"], a["line"]))
     return r
+
+
+def _collected_then_sorted(b, ln):
+    """`let mut v: Vec<_> = <hash container>.into_iter().collect(); v.sort();` — the iteration order is erased
+    before anything is produced from it"""
+    def scan(block):
+        stmts = block.get("stmts") or []
+        for i, st in enumerate(stmts):
+            if st.get("k") == "let" and st.get("ln") == ln and st["pat"].get("k") == "bind" and \
+                    (st.get("ty") or "").startswith("std::vec::Vec<") and i + 1 < len(stmts):
+                nx = stmts[i + 1]
+                if nx.get("k") == "mcall" and nx.get("m") in ("sort", "sort_unstable", "sort_by", "sort_by_key",
+                                                             "sort_unstable_by", "sort_unstable_by_key"):
+                    rv = peel(nx.get("recv"))
+                    if isinstance(rv, dict) and rv.get("k") == "local" and rv.get("id") == st["pat"]["id"]:
+                        return True
+        return False
+    for n in walk(b["body"]):
+        if n.get("k") == "block" and scan(n):
+            return True
+    return False
 
 
 def s3(rep, F):
